@@ -93,6 +93,9 @@ pub struct EpCfg {
     /// server roles: the control service, while it handles the Stop notification, tries one more awaiting QoS 1
     /// send through the sink (an application that reports the end of a session to the peer)
     pub ctl_sends: bool,
+    /// the publish-ack callback (non-blocking sends) asks its own sink `is_open()`, `is_ready()` and `credit()`
+    /// while it runs - what a pipeline that sends the next message once an acknowledgement frees a slot does
+    pub cb_queries: bool,
 }
 
 impl Default for EpCfg {
@@ -137,6 +140,7 @@ impl Default for EpCfg {
             ack_props: None,
             handler_sends: false,
             ctl_sends: false,
+            cb_queries: false,
         }
     }
 }
